@@ -2,8 +2,9 @@ import LexgenModel.Model.Dfa
 /-!
 # Model of the numbering done by code generation (`dfa/codegen.rs`, `dfa/codegen/ctx.rs`)
 
-States with exactly one predecessor are inlined at their transition sites and skipped in the
-numbering of `match self.0.__state` arms.
+Inlined states (under the macro's current policy: states with exactly one predecessor, reached by
+a single arm) have their code placed at their transition sites and are skipped in the numbering of
+`match self.0.__state` arms. The numbering is a function of the set of inlined states only.
 -/
 namespace Lexgen
 
@@ -21,15 +22,18 @@ def inlineSites (pred : DState Trans) (s : Nat) : Nat :=
      else 0
    | none => 0)
 
-/-- Whether the code of state `i` is inlined at its only use site: not an initial state, exactly
-one predecessor, reached from it by a single `match` arm. -/
+/-- The macro's current inlining policy: the code of state `i` is inlined at its only use site
+when it is not an initial state, has exactly one predecessor, and is reached from it by a single
+`match` arm. Nothing below depends on this policy: `stateArms`, `switchTable` and the run-time
+model take the set of inlined states as a parameter. -/
 def isInlined (d : DFA Trans) (i : Nat) : Bool :=
   !(d.st i).initial &&
   match (d.st i).preds with
   | [p] => inlineSites (d.st p) i == 1
   | _ => false
 
-/-- `CgCtx::new`: sorted vector of the inlined states. -/
+/-- `CgCtx::new`: sorted vector of the inlined states under the macro's current policy
+(`isInlined`). -/
 def inlinedStates (d : DFA Trans) : List Nat :=
   (List.range d.length).filter fun i => isInlined d i
 
@@ -43,10 +47,10 @@ inductive Pat where
   | wild
 deriving Repr, DecidableEq, Inhabited
 
-/-- `generate_state_arms`: (pattern, state whose code the arm holds), in arm order. -/
-def stateArms (d : DFA Trans) : List (Pat × Nat) :=
-  let inl := inlinedStates d
-  ((List.range d.length).filter fun i => !isInlined d i).map fun i =>
+/-- `generate_state_arms`: (pattern, state whose code the arm holds), in arm order. `inl` is the
+sorted vector of the states whose code is inlined at their use sites (whatever the policy). -/
+def stateArms (d : DFA Trans) (inl : List Nat) : List (Pat × Nat) :=
+  ((List.range d.length).filter fun i => !inl.contains i).map fun i =>
     let n := renumber inl i
     (if n == d.length - inl.length - 1 then Pat.wild else Pat.num n, i)
 
@@ -58,11 +62,10 @@ def dispatch : List (Pat × Nat) → Nat → Option Nat
   | (Pat.wild, s) :: _, _ => some s
 
 /-- `generate_switch`: rule set name ↦ number stored in `__state`. -/
-def switchTable (d : DFA Trans) (entries : List (String × Nat)) : List (String × Nat) :=
-  let inl := inlinedStates d
+def switchTable (inl : List Nat) (entries : List (String × Nat)) : List (String × Nat) :=
   entries.map fun e => (e.1, renumber inl e.2)
 
 /-- Whether the code of `t` is inlined at a transition site (`ctx.is_inlined`). -/
-def inlinedAt (d : DFA Trans) (t : Nat) : Bool := isInlined d t
+def inlinedAt (inl : List Nat) (t : Nat) : Bool := inl.contains t
 
 end Lexgen
